@@ -170,9 +170,36 @@ def mevalH : Handler := fun j => do
   let inss ← listOf (listOf valOfJson) (← field j "ins")
   return jList (fun ins => jOpt (jList valToJson) (evalMBody b ins)) inss
 
+def paramsToJson (p : RescaleParams) : Json :=
+  Json.mkObj [("input_zp", jInt p.inputZp), ("output_zp", jInt p.outputZp), ("multiplier", jList jInt p.multiplier),
+    ("shift", jList jInt p.shift), ("max_int", jInt p.maxInt), ("min_int", jInt p.minInt),
+    ("double_round", Json.bool p.doubleRound)]
+
+/-- {"supported": [kind, types], "kernel", "grid": [[types]…]} -> the type lists of the grid that are accepted -/
+def sameKernelH : Handler := fun j => do
+  let sk ← supportedOfJson (← field j "supported")
+  let k ← kernelOfJson (← field j "kernel")
+  let grid ← listOf (listOf nat) (← field j "grid")
+  return jList (jList jNat) (grid.filter (isSameKernel sk k))
+
+/-- {"out", "users", "clamp": null | [lo, hi], "input_zp", "output_zp", "multiplier", "shift", "double_round"}
+    -> null | {"params", "res"} -/
+def tosaH : Handler := fun j => do
+  let clamp ← optOf (fun c => do
+    match (← arr c).toList with
+    | [lo, hi] => return ((← int lo), (← int hi))
+    | _ => throw "bad clamp") (← field j "clamp")
+  let t : TosaRescale :=
+    { outWidth := ← nat (← field j "out"), users := ← nat (← field j "users"), clamp := clamp,
+      inputZp := ← int (← field j "input_zp"), outputZp := ← int (← field j "output_zp"),
+      multiplier := ← listOf int (← field j "multiplier"), shift := ← listOf int (← field j "shift"),
+      doubleRound := ← bool (← field j "double_round") }
+  return jOpt (fun (r : RescaleParams × Nat) => Json.mkObj [("params", paramsToJson r.1), ("res", jNat r.2)])
+    (tosaToKernel t)
+
 def handlers : List (String × Handler) :=
   [("c18.recognize", recognizeH), ("c18.eval", evalH), ("c18.keval", kevalH), ("c18.expand", expandH),
    ("c18.rescale_body", rescaleBodyH), ("c18.rescale_eval", rescaleEvalH), ("c18.dispatch", dispatchH),
-   ("c18.typed", typedH), ("c18.lower", lowerH), ("c18.meval", mevalH)]
+   ("c18.typed", typedH), ("c18.lower", lowerH), ("c18.meval", mevalH), ("c18.same_kernel", sameKernelH), ("c18.tosa", tosaH)]
 
 end SnaxVerif.Drv.C18
